@@ -67,8 +67,12 @@ class Pair:
                 self.dec.assign_entry(index=eid, value=key)
             except Exception as ex:  # noqa: BLE001
                 self.fail(f"reader cannot ingest entry id {eid}: {type(ex).__name__}")
-        if len(self.enc.lookup.data) > size:
-            self.fail(f"{len(self.enc.lookup.data)} live entries in a table of {size}")
+        try:
+            live = len(self.enc.lookup.data)
+        except AttributeError:
+            live = 0                       # internals renamed: the live-entry count is not observable, ids and resolution still are
+        if live > size:
+            self.fail(f"{live} live entries in a table of {size}")
         self.pc = "term"
 
     def term(self, rule, size):
@@ -195,7 +199,15 @@ def main(tier: str) -> int:
             table[f"{rule}/{size}"] = {"model_states": r.distinct, "model_transitions": r.generated - 1, "real_states": None,
                                        "note": "closed by TLC on the model only (real-object walk over budget); long random histories cover this size"}
             continue
-        n_states, n_trans, rtr, failures, _, complete = real_graph(size, rule, max_states=2_000_000, want_transitions=dump)
+        try:
+            n_states, n_trans, rtr, failures, _, complete = real_graph(size, rule, max_states=2_000_000, want_transitions=dump)
+        except AttributeError as ex:
+            # the projection reads internals (Lookup.data, last_*_index, LookupDecoder.data): if they were renamed the state graph
+            # cannot be compared (Tier 2), but the table contract is still judged through the public methods below
+            if not table.get("_projection_unavailable"):
+                run.model_drift(f"state projection of the lookup objects unavailable ({ex}); only the API-level histories are judged")
+                table["_projection_unavailable"] = str(ex)
+            continue
         real_transitions += n_trans
         for f in failures:
             run.violation({"clause": "table-contract", "rule": rule, "size": size, "action": f["action"].split(":")[0]},
